@@ -8,13 +8,14 @@ B2: run histories over one sqlite file, each run a separate (forked) process exe
     from {ingest, no-ingest} x {ug on/off} x {save events on/off} on three data sets (one whose first-run cleaning removes
     traces, one whose files contain re-delivered spans); TLC evaluates on the logged executions that every run completes, that any two runs give the same PV
     sequence for every trace both output (read from the saved files when events are saved), and that all
-    unique-graph runs select the same shape classes; conformance to Store.tla is checked as well."""
+    unique-graph runs select the same shape classes, and that all runs without the unique-graph filter output the same
+    set of traces (C15sameset: the files are the same in every ingesting run); conformance to Store.tla is checked as well."""
 import store
 import storegen
 from checks import storecheck as sc
 
 LEVEL = "model_checking"
-CLAUSES = {"C15completes", "C15same", "C15classes", "C15all"}
+CLAUSES = {"C15completes", "C15same", "C15classes", "C15all", "C15sameset"}
 FLAGS = ((1, 0), (1, 1), (0, 0), (0, 1))
 
 
@@ -47,14 +48,14 @@ def run(chk, tier, seed):
     scns = storegen.c15_scenarios(tier, seed)
     st = {}
     n, ndrift = sc.run_and_validate(chk, scns, CLAUSES, stats=st)
-    ncli, ncliruns = cli_family(chk, tier, seed, st, {"C15completes", "C15same", "C15all"}, "c15cli")
+    ncli, ncliruns = cli_family(chk, tier, seed, st, {"C15completes", "C15same", "C15all", "C15sameset"}, "c15cli")
     nontriv = sum(1 for s in scns if len(s["runs"]) >= 2)
     cov = {"states": m["states"] + st.get("conf_states", 0) + st.get("obs_states", 0),
            "transitions": m["transitions"] + st.get("conf_generated", 0) + st.get("obs_generated", 0),
            "traces_validated_against_impl": n, "evaluations": n, "distinct_nontrivial": nontriv,
            "rule": "all histories of 1-2 runs (thorough: 1-4) over flags {ingest,no-ingest} x {ug} x {save events} that "
-                   "ingest at least once, plus seeded histories of 3-4 runs, on three data sets (same shapes / cleaning removes traces / "
-                   "re-delivered spans in the files); every run is a separate "
+                   "ingest at least once, plus seeded histories of 3-4 runs, on four data sets (same shapes / cleaning removes traces / "
+                   "re-delivered spans in the files / time buffer 2 with survivors near the edge of the surviving data); every run is a separate "
                    "process on one sqlite file; non-trivial = history of at least two runs",
            "process_runs": sum(len(s["runs"]) for s in scns),
            "cli_histories": ncli, "cli_process_runs": ncliruns,
